@@ -923,8 +923,14 @@ impl Prop for C13Positions {
         );
         let got: Vec<(Mv, String)> = listed.iter().map(|(m, s)| (mv_of(m), s.clone())).collect();
         check_labels(&pos, &got, st, "enumerate_candidate_moves_with_algebraic_notation")?;
-        if pos.fingerprint() % 16 == 0 {
+        if pos.fingerprint() % 8 == 0 {
             let mut game = Game::from_board(to_board(&pos), 1);
+            // in half of these the engine is asked for its move first (opening book by squares,
+            // then search): whatever it caches must not change the listing
+            if pos.fingerprint() % 16 == 0 && !pos.legal_moves().is_empty() {
+                let _ = game.select_waterfall_book_then_alpha_beta_best_move();
+                st.count("engine_asked_before_game_listing", 1);
+            }
             let listed = game.enumerated_candidate_moves();
             let got: Vec<(Mv, String)> = listed.iter().map(|(m, s)| (mv_of(m), s.clone())).collect();
             let mut scratch = Stats::default();
